@@ -303,6 +303,29 @@ def _patron_records_error(repo):
     return (not bad), "; ".join(bad) or "handlers record the error on the respondent"
 
 
+def _definitely_assigns(stmts, target):
+    """every fall-through path through `stmts` assigns `target` (a non-None constant-free value) or leaves by raise"""
+    for st in stmts:
+        if isinstance(st, ast.Assign) and any(ast.unparse(t) == target for t in st.targets):
+            if not (isinstance(st.value, ast.Constant) and st.value.value is None):
+                return True
+        if isinstance(st, ast.If) and st.orelse:
+            if all(_definitely_assigns(b, target) or (b and isinstance(b[-1], ast.Raise)) for b in (st.body, st.orelse)):
+                return True
+    return False
+
+
+def _request_fields_set(repo):
+    """what Valet.serviceReqs / buildEnviron read without a guard from a request that parsed without error"""
+    fn = repo.func(S, "Requestant.parseHead")
+    missing = [a for a in ("self.method", "self.version", "self.path", "self.query", "self.url")
+               if not _definitely_assigns(fn.body, a)]
+    return (not missing), ("not assigned on every path through Requestant.parseHead: %s" % missing) if missing else \
+        "method, url, version, path, query are assigned on every path that completes the head"
+
+
+REG.static_checks.append(("C32", "Requestant.parseHead: a head that parses without error has method, url, version, path and query set "
+                                 "(buildEnviron formats them unguarded)", _request_fields_set))
 REG.static_checks.append(("C32", "Parsent.parseMessage: every caught parse error marks the message failed (.errored, .error) and ended",
                           _parse_message_marks_failed))
 REG.static_checks.append(("C32", "Valet.serviceReqs: an errored request closes its own connection and the loop goes on (no break / return)",
@@ -341,8 +364,10 @@ VALID_RESPS = [
     b"HTTP/1.1 200 OK\r\nContent-Type: text/event-stream\r\nTransfer-Encoding: chunked\r\n\r\n"
     b"10\r\nretry: 5\ndata: a\n\n\r\n8\r\ndata: b\n\n\r\n0\r\n\r\n",
     b"HTTP/1.0 404 Not Found\r\nServer: x\r\n\r\nbody until close",
+    b"HTTP/1.1 100 Continue\r\n\r\nHTTP/1.1 200 OK\r\nContent-Length: 2\r\n\r\nhi",
 ]
 SPLICES = [b"\r\n", b"\n", b"\r", b":", b": ", b" ", b";", b"=", b"ZZ\r\n", b"-5", b"\xff", b"\x00", b"HTTP/9.9", b"HTTP/1.1",
+           b"HTTP/1.2", b"HTTP/1.", b"HTTP/1.x", b"HTTP/0.9", b"HTTP/2", b"HTTP/", b"2", b"x", b"%", b"?", b"#", b"100", b"999", b"1000",
            b"Content-Length: -1\r\n", b"Content-Length: abc\r\n", b"Transfer-Encoding: chunked\r\n", b"0\r\n\r\n",
            b"ffffffffffffffffffff\r\n", b"nocolonheader\r\n", b"retry: x\n", b"data: \xff\xfe\n\n", b"\xef\xbb\xbf"]
 
@@ -366,6 +391,13 @@ def mutate(rng, raw):
         else:
             a = rng.randrange(len(raw) + 1)
             raw[pos:pos] = raw[a:a + rng.randrange(1, 20)]
+    if rng.randrange(4) == 0:
+        # replace one blank-separated word of the start line by another token (method, target, version, status)
+        head, sep, rest = bytes(raw).partition(b"\r\n")
+        words = head.split(b" ")
+        if words:
+            words[rng.randrange(len(words))] = rng.choice(SPLICES + [b"GET", b"BREW", b"/", b"*", b"http://h/x", b"200", b"OK"])
+            raw = bytearray(b" ".join(words) + sep + rest)
     if rng.randrange(12) == 0:
         raw = bytearray(rng.randrange(256) for _ in range(rng.randrange(0, 60)))
     return bytes(raw)
